@@ -42,7 +42,7 @@ class C19:
             "CPython (2.7 / 3.6,3.7 / 3.8,3.9 / 3.10) decodes the frozen bytes attached to a native code object to the "
             "same mapping; non-trivial = a gap needing continuation entries (offset gap >= 255 or |line delta| >= 127) "
             "or a decreasing line; distinct = (type, first line, mapping)")
-    assumptions = ["mappings start at offset 0 and consecutive entries have different lines (what compilers emit); "
+    assumptions = ["mappings start at offset 0 (Code310: or later, the code before has no line) and consecutive entries have different lines (what compilers emit); "
                    "equal consecutive lines are merged by every decoder and are not generated",
                    "Code3 covers 3.0-3.7 (unsigned before 3.6): only non-decreasing lines are required there"]
     budgets = {"quick": {"shards": 8, "examples": 2500, "seconds": 60},
@@ -56,8 +56,11 @@ class C19:
             n = draw(st.integers(1, 6))
             first = draw(st.sampled_from([1, 1, 2, 10, 1000]))
             off = 0
+            if typ == "Code310":
+                # only the 3.10 table can say "no line" for the code before the first pair
+                off = draw(st.sampled_from([0, 0, 0, 2, 100, 252, 254, 256, 510, 600]))
             line = first + draw(st.sampled_from([0, 0, 0, 1, 5, 130, 300]))
-            pairs = [[0, line]]
+            pairs = [[off, line]]
             unit = 1 if typ == "Code2" else 2
             for _ in range(n - 1):
                 gap = draw(st.one_of(st.sampled_from(GAPS), st.integers(1, 40)))
@@ -79,7 +82,8 @@ class C19:
         res = Result()
         typ = case.get("type")
         pairs = case.get("pairs")
-        if typ not in TYPES or not isinstance(pairs, list) or not pairs or pairs[0][0] != 0:
+        if typ not in TYPES or not isinstance(pairs, list) or not pairs or not isinstance(pairs[0], list) or len(pairs[0]) != 2 or (
+                pairs[0][0] != 0 and (typ != "Code310" or pairs[0][0] < 0 or pairs[0][0] % 2)):
             res.reject = "malformed-case"
             return res
         offs = [p[0] for p in pairs]
@@ -101,7 +105,9 @@ class C19:
             or lines[0] - case["first"] >= 127
         res.nontrivial = big or decreasing
         res.key = [typ, case["first"], pairs, case["codelen"]]
-        res.classes = ["type:" + typ, "given-as:" + case["as"]] + (["continuation-entries"] if big else []) + (
+        if offs[0] >= 255:
+            big = res.nontrivial = True
+        res.classes = ["type:" + typ, "given-as:" + case["as"]] + (["no-line-prefix"] if offs[0] else []) + (["continuation-entries"] if big else []) + (
             ["decreasing-line"] if decreasing else [])
         res.sample = {"type": typ, "first_line": case["first"], "mapping": pairs[:6], "given_as": case["as"]}
         try:
